@@ -58,11 +58,20 @@ inductive Draw where
   | b (n k : Nat)
   deriving DecidableEq, Repr, Inhabited
 
-/-- Own state of a pattern object: integer registers, value registers / buffers, the draw tape of
-    its private generator and the tape cursor.  Each class documents its register layout. -/
+/-- Own state of a pattern object: six integer registers, three value registers, two value buffers,
+    the draw tape of its private generator and the tape cursor.  Each class documents its layout. -/
 structure St where
-  n : List Int := []
-  v : List Val := []
+  n0 : Int := 0
+  n1 : Int := 0
+  n2 : Int := 0
+  n3 : Int := 0
+  n4 : Int := 0
+  n5 : Int := 0
+  v0 : Val := Val.a Atom.none
+  v1 : Val := Val.a Atom.none
+  v2 : Val := Val.a Atom.none
+  buf : List Val := []
+  buf2 : List Val := []
   tape : List Draw := []
   cur : Nat := 0
   deriving DecidableEq, Repr, Inhabited
@@ -95,7 +104,7 @@ def cls : Pat → Cls | .node c _ _ => c
 def kids : Pat → List Pat | .node _ k _ => k
 def st : Pat → St | .node _ _ s => s
 /-- `PConstant(v)` / a plain scalar. -/
-def const (v : Val) : Pat := .node .const [] { v := [v] }
+def const (v : Val) : Pat := .node .const [] { v0 := v }
 end Pat
 
 /-- Result of taking one value from a pattern: the outcome and the pattern afterwards. -/
@@ -117,14 +126,12 @@ structure ClsRes where
 /-- A class's `__next__`. -/
 abbrev ClsStep := Rec → List Pat → St → ClsRes
 
-/-! ### Register helpers -/
+/-! ### Register helpers (used by the driver's parser only) -/
 
-def St.getN (s : St) (i : Nat) : Int := s.n.getD i 0
-def St.setN (s : St) (i : Nat) (x : Int) : St :=
-  { s with n := if i < s.n.length then s.n.set i x else s.n ++ List.replicate (i - s.n.length) 0 ++ [x] }
-def St.getV (s : St) (i : Nat) : Val := s.v.getD i Val.none
-def St.setV (s : St) (i : Nat) (x : Val) : St :=
-  { s with v := if i < s.v.length then s.v.set i x else s.v ++ List.replicate (i - s.v.length) Val.none ++ [x] }
+def St.ofLists (ns : List Int) (vs : List Val) (buf buf2 : List Val) (tape : List Draw) : St :=
+  { n0 := ns.getD 0 0, n1 := ns.getD 1 0, n2 := ns.getD 2 0, n3 := ns.getD 3 0, n4 := ns.getD 4 0, n5 := ns.getD 5 0,
+    v0 := vs.getD 0 (Val.a Atom.none), v1 := vs.getD 1 (Val.a Atom.none), v2 := vs.getD 2 (Val.a Atom.none),
+    buf := buf, buf2 := buf2, tape := tape }
 
 /-- Replace the `i`-th kid. -/
 def setKid (kids : List Pat) (i : Nat) (p : Pat) : List Pat := kids.set i p
